@@ -166,6 +166,16 @@ func leakScripts(thorough bool) []leakScript {
 	return out
 }
 
+// safeLeakScript turns a panic of the code under test into a violation instead of a crash of the check.
+func safeLeakScript(s leakScript) (v string) {
+	defer func() {
+		if r := recover(); r != nil {
+			v = viol("panic", "finalizer probe %+v: the code under test panicked: %v", s, r)
+		}
+	}()
+	return runLeakScript(s)
+}
+
 // runLeakProbes runs all scripts on a few goroutines.
 func runLeakProbes(thorough bool) (n int, firstViolation string) {
 	scripts := leakScripts(thorough)
@@ -180,7 +190,7 @@ func runLeakProbes(thorough bool) (n int, firstViolation string) {
 				if leakStop.Load() {
 					continue
 				}
-				if v := runLeakScript(s); v != "" {
+				if v := safeLeakScript(s); v != "" {
 					leakStop.Store(true)
 					mu.Lock()
 					if firstViolation == "" {
